@@ -19,6 +19,7 @@ MODULES = {
     "C17": ["contracts.externals", "contracts.types_named", "contracts.codec_headers", "contracts.ezsp_protocol", "contracts.ezsp", "contracts.ezsp_events"],
     "C13": ["contracts.externals", "contracts.types_named", "contracts.application", "contracts.app_callbacks"],
     "C12": ["contracts.externals", "contracts.types_named", "contracts.application", "contracts.ezsp", "contracts.app_send"],
+    "C20": ["contracts.externals", "contracts.thread"],
     "C03": ["contracts.externals", "contracts.ash", "contracts.ash_wire"],
 }
 
